@@ -37,6 +37,11 @@ var (
 func goEnv() []string {
 	env := os.Environ()
 	env = append(env, "GOFLAGS=-mod=mod", "GOPROXY=off", "GOSUMDB=off", "GOTOOLCHAIN=local")
+	if *flagWork != "" {
+		// cff writes a debugging copy to the temporary directory when its own
+		// output does not parse: keep such files inside the scratch area
+		env = append(env, "TMPDIR="+*flagWork)
+	}
 	return env
 }
 
